@@ -140,10 +140,12 @@ def storms(ctx):
                     return
                 trace = exe + f"_{rep}.ndjson"
                 what = f"stop-the-world storm threads={threads} iters={iters} backend={backend} gc={gc or 'default'} run={rep}"
-                r = progs.run_prog(exe, env={"DORA_VERIF_TRACE": trace}, timeout=300)
+                # small heaps: a collection of the default-sized heap costs ~0.5 s in this debug build
+                sflags = "--max-heap-size=8M" + (" --gc-young-size=1M" if gc is None else "")
+                r = progs.run_prog(exe, flags=sflags, env={"DORA_VERIF_TRACE": trace}, timeout=300)
                 ctx.add("storm_runs")
                 if r.timed_out:
-                    r2 = progs.run_prog(exe, timeout=600)
+                    r2 = progs.run_prog(exe, flags=sflags, timeout=900)
                     if r2.timed_out:
                         ctx.violation(f"{what}: hang (every stop-the-world request must complete and every thread resume)",
                                       {"source": open(src).read(), "backend": backend, "gc": gc}, key="storm-hang")
